@@ -15,7 +15,8 @@ for n in 1 2 3; do
   elif [ -f $out/demo${n}_test.go ]; then
     pkg=$(grep -m1 "^package " $out/demo${n}_test.go | awk '{print $2}' | sed 's/_test$//')
     case $pkg in node) dir=types/node;; value) dir=types/value;; bytecode) dir=types/bytecode;; token) dir=types/token;; main) dir=cmd/calc;; *) dir=$pkg;; esac
-    ./seedverify_go.sh $out $n $dir > $log 2>&1
+    tags=""; grep -q "go:build verif" $out/demo${n}_test.go && tags="-tags verif"
+    ./seedverify_go.sh $out $n $dir $tags > $log 2>&1
     w=$(sed -n '/WITHOUT the change/,/repo tests/p' $log | grep -c "^ok")
     f=$(sed -n '/WITH the change:/,$p' $log | grep -c "^FAIL\|^--- FAIL\|^panic")
     if [ "$w" -ge 1 ] && [ "$f" -ge 1 ] && grep -q "failing lines with the change: 0" $log && grep -q "build+vet: ok" $log && grep -q "build -tags verif: ok" $log; then v=CONFIRMED; ok="$ok $n"; else v=REJECTED; fi
